@@ -375,7 +375,7 @@ PROPS["C04"] = {
          "shards": {"quick": 1, "thorough": 16}},
     ],
     "rule": "rapid draws a target (5 plain functions, 4 variadic functions with 0..3 leading fixed parameters, 3 methods with pointer/value receivers incl. a "
-            "variadic one), a well-formed stub configuration (optional default, then 0..5 clauses: When with per-argument plain value / Any / arg.In, or "
+            "variadic one, 2 methods of an interface variable incl. a variadic one), a well-formed stub configuration (optional default, then 0..5 clauses: When with per-argument plain value / Any / arg.In, or "
             "In with 1..3 alternative tuples, for variadics also of different lengths) over small overlapping value pools, and 1..20 hit-biased calls. "
             "Oracle: a reference interpreter (first registered clause all of whose expressions match, counts must agree for variadic tails, else "
             "default, else panic with the 'no suitable condition' message); for plain functions When.Eval must agree with the call. Non-trivial: a "
@@ -383,7 +383,7 @@ PROPS["C04"] = {
             "(target, number of clauses, default, decision sequence).",
     "assumptions": ["condition values come from the domain where equality is unambiguous (ints, strings, bools, ordinary floats, comparable structs, pointers by pointee, slices by content, interface{} holding ints/strings)"],
     "floors": [("configurations", "decided/later-clause", 500), ("configurations", "decided/panic-no-condition", 100), ("configurations", "variadic/1-fixed", 100),
-               ("configurations", "variadic/3-fixed", 100), ("configurations", "method", 300), ("configurations", "clause/in", 200)],
+               ("configurations", "variadic/3-fixed", 100), ("configurations", "method", 300), ("configurations", "clause/in", 200), ("configurations", "interface-method", 200)],
 }
 
 PROPS["C05"] = {
